@@ -23,6 +23,7 @@ THEOREMS = [
     "ProbLogProofs.C09.C09_clark_unique_cnf",
     "ProbLogProofs.C09.C09_clark_exists",
     "ProbLogProofs.C09.C09_clark_unique_model",
+    "ProbLogProofs.C09.C09_clark_count",
     "ProbLogProofs.C09.C09_clark_constraints",
     "ProbLogProofs.C09.C09_clark_constraints_exactly_one",
     "ProbLogProofs.C09.C09_clark_constraints_all",
